@@ -22,6 +22,7 @@ E1 = {
     'C02': 'harness.c02_accepts',
     'C03': 'harness.c03_polymorph',
     'C04': 'harness.c04_noconstruct',
+    'C05': 'harness.c05_roundtrip',
     'C08': 'harness.c08_errors',
     'C09': 'harness.c09_resolver',
     'C13': 'harness.c13_invariance',
